@@ -692,8 +692,10 @@ func (monC13) Step(h *History, st *Step) []Violation {
 			lhs := bmul(bi(last-cur), E18)
 			rhs := bmul(ba.RateM, bi(last))
 			diff := bsub(lhs, rhs) // scaled by last*1e18
-			tol := bmul(bi(2), bi(last))
-			if new(big.Int).Abs(diff).Cmp(tol) <= 0 {
+			// the module works at 18-decimal resolution: when 1 - cur/last is not exactly the rate but
+			// closer to it than 1e-18, either decision is accepted; exact equality must extend
+			tol := bi(last)
+			if diff.Sign() != 0 && new(big.Int).Abs(diff).Cmp(tol) < 0 {
 				either = true
 				h.Label("c13:eval-at-rate-boundary")
 			}
@@ -748,6 +750,6 @@ func CfgC13() PropCfg {
 		NonTrivial: func(h *History) bool {
 			return hasLabel(h, "c13:extended") && hasLabel(h, "c13:settled-after-extension") && hasLabel(h, "c13:eval-compared-counts")
 		},
-		Rule: "K: batch auctions with max rounds 0..30, rates engineered to equal 1-cur/last of small count pairs (and +-1e-18), extension period 0/1/2/7 days, order books that change between end times (outbidding, cap changes, modifications), blocks on each successive end time, usually driven to settlement. At each end-time evaluation: count recorded now within the reference matching bounds; n == M+1 => settle, previous count 0 => extend, else extend <=> 1 - cur/last >= rate in exact rationals (either decision accepted within 2e-18 of the boundary); an extension appends exactly previous end + period*24h and changes nothing else; never more than M+1 end times; counts and end times never change outside an evaluation. Non-trivial = an extension and a later settlement with a comparison against a non-zero previous count.",
+		Rule: "K: batch auctions with max rounds 0..30, rates engineered to equal 1-cur/last of small count pairs (and +-1e-18), extension period 0/1/2/7 days, order books that change between end times (outbidding, cap changes, modifications), blocks on each successive end time, usually driven to settlement. At each end-time evaluation: count recorded now within the reference matching bounds; n == M+1 => settle, previous count 0 => extend, else extend <=> 1 - cur/last >= rate in exact rationals (either decision accepted only when the exact value differs from the rate by less than 1e-18 without being equal); an extension appends exactly previous end + period*24h and changes nothing else; never more than M+1 end times; counts and end times never change outside an evaluation. Non-trivial = an extension and a later settlement with a comparison against a non-zero previous count.",
 	}
 }
